@@ -456,7 +456,7 @@ def _bootstrap_distance_matrix_manhattan(
 
     cdef:
         int i, l
-        ndarray[NODE_t, ndim=2] jk = rd.randint(n_time, size=(2,M))
+        ndarray[NODE_t, ndim=2] jk = rd.randint(n_time, size=(2,M), dtype=NODE)
         double sum
 
     for i in range(M):
@@ -475,7 +475,7 @@ def _bootstrap_distance_matrix_euclidean(
 
     cdef:
         int i, l
-        ndarray[NODE_t, ndim=2] jk = rd.randint(n_time, size=(2,M))
+        ndarray[NODE_t, ndim=2] jk = rd.randint(n_time, size=(2,M), dtype=NODE)
         double sum, diff
 
     for i in range(M):
@@ -495,7 +495,7 @@ def _bootstrap_distance_matrix_supremum(
 
     cdef:
         int i, l
-        ndarray[NODE_t, ndim=2] jk = rd.randint(n_time, size=(2,M))
+        ndarray[NODE_t, ndim=2] jk = rd.randint(n_time, size=(2,M), dtype=NODE)
         double temp_diff, diff
 
     for i in range(M):
